@@ -70,7 +70,7 @@ func c05Cells(tier string) []Cell {
 							c := FCfg{Front: front, SU: su, MS: true, Init: init + "A", FailC: "00", Rand: rnd, BCount: 1, Tags: []string{"window", fmt.Sprint(maxLen), fmt.Sprint(first)}}
 							if init == "S" && rnd == 1+0.5 {
 								c.ObsMut = true // ... and ObserveMutability compares every rebuilt value with the one it replaces
-								c.UpdSec = 2 // UpdateTTL shorter than FailedUpdateTTL: the refreshed stale copy expires inside the window
+								c.UpdSec = 2    // UpdateTTL shorter than FailedUpdateTTL: the refreshed stale copy expires inside the window
 							}
 
 							if ft < 0 {
@@ -104,7 +104,8 @@ func c05FT(cfg FCfg) time.Duration {
 func c05Alphabet(ft int) []string {
 	return []string{"Get(ok)", "Get(fail)", "Advance(1s)", "Advance(FT*0.95-16ns)", "Advance(FT*1.05+1ns)", "ExpireAll(backend)", "Get(fail, caller context already cancelled)",
 		"Get(fail, caller context carries TTL 1s)", "Get(ok, caller context carries TTL 1h)",
-		"Get(fail) of another key", "cleanup cycle of the failure cache", "Get(ok, the builder returns the cached value again)"}
+		"Get(fail) of another key", "cleanup cycle of the failure cache", "Get(ok, the builder returns the cached value again)",
+		"Get(fail, the builder's error is a timeout of its own: matches context.DeadlineExceeded)"}
 }
 
 func c05Burst(cfg FCfg, env *Env) CellResult {
@@ -221,10 +222,14 @@ func c05Window(cfg FCfg, env *Env) CellResult {
 
 			for _, o := range seq {
 				switch o {
-				case 0, 1, 6, 7, 8, 11:
+				case 0, 1, 6, 7, 8, 11, 12:
 					h.cfg.Script = "o"
 					if o != 0 && o != 8 && o != 11 {
 						h.cfg.Script = "f"
+					}
+
+					if o == 12 {
+						h.cfg.Script = "c" // whatever the error looks like, it is the builder that failed
 					}
 
 					if o == 11 {
@@ -429,7 +434,7 @@ func init() {
 		ID: "C05", Title: "Build economy: SyncRead single-flight and cached failures suppress rebuilds",
 		Cells: c05Cells, Run: c05Run,
 		Rule: "(a,c) SyncRead bursts: 2-3 threads x 1-2 Gets on one key in state {absent, stale, too stale, fresh}, builder ok / failing, SU x FH x MS x 3 front-ends, all schedules within the bound: exactly one (successful / failing) build per burst; " +
-			"(b) all sequences of <=4 (quick) / <=5 (thorough) operations over {Get(ok), Get(fail), Get(fail) under an already cancelled caller context, Get(fail) under a caller TTL of 1s, Get(ok) under a caller TTL of 1h, Get(fail) of another key, a cleanup cycle of the internal failure cache, Get(ok) whose builder returns the cached value again (ObserveMutability on in some cells), Advance 1s, Advance FT*0.95-1ns, Advance FT*1.05+1ns, ExpireAll(backend)} for FailedUpdateTTL {20s, 5s, -1} with the jitter answer at both extremes and the middle: " +
+			"(b) all sequences of <=4 (quick) / <=5 (thorough) operations over {Get(ok), Get(fail), Get(fail) under an already cancelled caller context, Get(fail) under a caller TTL of 1s, Get(ok) under a caller TTL of 1h, Get(fail) of another key, a cleanup cycle of the internal failure cache, Get(ok) whose builder returns the cached value again (ObserveMutability on in some cells), Get(fail) whose builder error matches context.DeadlineExceeded, Advance 1s, Advance FT*0.95-1ns, Advance FT*1.05+1ns, ExpireAll(backend)} for FailedUpdateTTL {20s, 5s, -1} with the jitter answer at both extremes and the middle: " +
 			"no builder entry before t_fail + FT*(1-J/2), same error inside the window, rebuild on every Get with FT=-1",
 		Assumptions: []string{
 			"a burst happens at one virtual instant, so the built result stays fresh for its whole duration",
